@@ -478,3 +478,23 @@ pub fn key_refl(k: u8) {
     std::mem::forget(a);
     vcover!(true, "end reached");
 }
+
+/// Maps: falsey iff empty (0 and 1 entries; `RandomState::new` stubbed with fixed keys).
+pub fn falsey_map(entries: usize) {
+    let m = HMap::default();
+    let mut i = 0;
+    while i < entries {
+        let k = Rc::new(Object::Integer(sym::i64_()));
+        let v = Rc::new(Object::Null);
+        let (kk, vk) = (k.clone(), v.clone());
+        let old = m.pairs.borrow_mut().insert(k, v);
+        std::mem::forget(old);
+        std::mem::forget(kk);
+        std::mem::forget(vk);
+        i += 1;
+    }
+    let o = Object::Map(Rc::new(m));
+    assert!(o.is_falsey() == (entries == 0), "VERIF: is_falsey differs from the documented truthiness table");
+    std::mem::forget(o);
+    vcover!(true, "end reached");
+}
